@@ -25,8 +25,8 @@ def valid_cfgs(ttls, gcis, maxputs):
 
 
 def tlc_replay(ctx, name, cfgs, *, max_now, max_bad, asfound=False, export=True, timeout=900, put_topics=PUT_TOPICS,
-               simulate=None, depth=None):
-    consts = dict(Configs=cfg_set(cfgs), MaxNow=max_now, MaxBad=max_bad, PutTopics=put_topics, SubTopics=SUB_TOPICS,
+               simulate=None, depth=None, sub_topics=SUB_TOPICS):
+    consts = dict(Configs=cfg_set(cfgs), MaxNow=max_now, MaxBad=max_bad, PutTopics=put_topics, SubTopics=sub_topics,
                   AsFound=asfound)
     invs = list(INVS) + (["Export"] if export else [])
     d = core.write_mc(ctx, name, "Replay", consts, invariants=invs, view=None if simulate else "View")
@@ -131,6 +131,7 @@ def valid_plan(ctx):
         ("ValidTopics", valid_cfgs([2, 3], [0, 1, 2, 4], 4), 5, 0, two, None, None),
         ("ValidRejected", valid_cfgs([2], [0, 1, 2], 3), 4, 1, two, None, None),
         ("ValidDeep", valid_cfgs([2, 3], [0, 1, 3], 9), 4, 0, one, None, None),
+        ("ValidDeeper", [dict(kind="valid", n=0, auto=a, ttl=2, gci=0, maxputs=12) for a in (False, True)], 4, 0, one, None, None),
         ("ValidSim", valid_cfgs([3, 5], [0, 2, 7], 40), 60, 3, two, "num=100", 80),
     ]
 
@@ -157,13 +158,17 @@ def run_C18(ctx):
     if ctx.quick:
         plan = [("RetainFinite", finite_cfgs([2, 3, 4], 3), 0, 1, one, None, None),
                 ("RetainValid", valid_cfgs([2], [0, 3], 8), 3, 0, one, None, None),
-                ("RetainValidTTL3", valid_cfgs([3], [1], 4), 5, 0, one, None, None)]
+                ("RetainValidTTL3", valid_cfgs([3], [1], 4), 5, 0, one, None, None),
+                # deep enough for a collection whose expired run wraps around the end of an 8-slot ring (18 operations)
+                ("RetainValidDeep", [dict(kind="valid", n=0, auto=False, ttl=2, gci=0, maxputs=12)], 4, 0, one, None, None)]
     else:
         plan = [("RetainFinite", finite_cfgs([2, 3, 4, 5], 4), 0, 1, two, None, None),
                 ("RetainValid", valid_cfgs([2, 3], [0, 1, 3], 9), 4, 0, one, None, None),
+                ("RetainValidDeep", [dict(kind="valid", n=0, auto=a, ttl=2, gci=g, maxputs=13) for a in (False, True) for g in (0, 3)], 5, 0, one, None, None),
                 ("RetainValidSim", valid_cfgs([3, 5], [0, 2, 7], 40), 60, 0, one, "num=60", 80)]
     for name, cfgs, max_now, max_bad, tps, sim, depth in plan:
-        r = tlc_replay(ctx, name, cfgs, max_now=max_now, max_bad=max_bad, put_topics=tps, simulate=sim, depth=depth, timeout=3000)
+        r = tlc_replay(ctx, name, cfgs, max_now=max_now, max_bad=max_bad, put_topics=tps, simulate=sim, depth=depth, timeout=3000,
+                       sub_topics=Raw('{{""}}'))
         n, res = drive(ctx, "retain", r.stdout_path, name)
         absorb(ctx, res, agg)
     evidence(ctx, agg,
